@@ -172,6 +172,8 @@ type netMember struct {
 	restarts  int
 	evDelay   int // blocks of delay before this node's event provider shows a transmit
 	lag       uint64
+	deviant   bool          // a faulty member that runs the REAL plugin over a slow pipeline answering "eligible" with made-up data
+	condCalls int           // conditional payloads this member's pipeline was asked about
 	quiet     bool          // a decoy instance built on the same factory is alive: its polls are neither answered nor recorded
 	lastPoll  time.Duration // virtual time of the instance's start or of its latest poll of the event provider
 	maxGap    time.Duration // longest time the running instance went without polling its event provider
@@ -195,7 +197,7 @@ func (m *netMember) mark(now time.Duration) {
 func (e *netEvents) GetLatestEvents(context.Context) ([]ocr2keepers.TransmitEvent, error) {
 	e.w.mu.Lock()
 	defer e.w.mu.Unlock()
-	if e.m.quiet {
+	if e.m.quiet || e.m.deviant {
 		return nil, nil
 	}
 	e.m.mark(time.Since(e.w.start))
@@ -293,6 +295,7 @@ type JNetTrace struct {
 type JNetImpl struct {
 	Performed   int `json:"performed"`
 	QuorumMismatch int `json:"quorumMismatch,omitempty"` // ObservationQuorum answers that differ from "at least 2f+1 observations"
+	SamplingStarved int `json:"samplingStarved,omitempty"` // never restarted honest members with conditional upkeeps whose pipeline was never asked about one
 	MaxPollGapMs int `json:"maxPollGapMs,omitempty"` // longest virtual time an open honest member went without polling its transmit event provider
 	FirstReport map[string]int `json:"firstReport"` // upkeep -> first round in which it was reported
 	Eligible    map[string]int `json:"eligible"`    // upkeep -> round at which it became eligible for everybody
@@ -342,6 +345,16 @@ func runNetwork(t *testing.T, r *Rng, em *Emitter, roundEm func(JRound, JRoundIm
 	for k := 0; k < opts.byz; k++ {
 		members[perm[k]].byzantine = true
 	}
+	if opts.byz > 0 && r.Chance(40) {
+		members[perm[0]].deviant = true
+		em.Hit("deviant-member")
+	}
+	// sampling settings of the off-chain config: the default, the one of the simulator's plans, a relaxed target
+	sampling := []string{``, `,"targetProbability":"0.999","targetInRounds":4`, `,"targetProbability":"0.5","targetInRounds":20`}[r.Intn(3)]
+	pipeDelay := time.Duration(0)
+	if r.Chance(50) {
+		pipeDelay = time.Duration(r.Range(5, 40)) * time.Millisecond
+	}
 	for k := opts.byz; k < opts.byz+opts.crashes; k++ {
 		crashers[perm[k]] = true
 	}
@@ -365,7 +378,7 @@ func runNetwork(t *testing.T, r *Rng, em *Emitter, roundEm func(JRound, JRoundIm
 			// … or one that differs only in settings the coordinator does not read
 			decoy.OffchainConfig = []byte(`{"performLockoutWindow":100000,"minConfirmations":1,"maxUpkeepBatchSize":1,"gasLimitPerReport":1000000}`)
 		}
-		node := NewNodeWith(t, NodeOpts{N: n, F: f, Digest: digest, OracleID: m.id, OffchainConfig: []byte(`{"performLockoutWindow":100000,"minConfirmations":1,"maxUpkeepBatchSize":3}`),
+		node := NewNodeWith(t, NodeOpts{N: n, F: f, Digest: digest, OracleID: m.id, OffchainConfig: []byte(`{"performLockoutWindow":100000,"minConfirmations":1,"maxUpkeepBatchSize":3` + sampling + `}`),
 			Decoy: decoy, AfterDecoy: func() {
 				w.mu.Lock()
 				m.quiet = false
@@ -374,10 +387,26 @@ func runNetwork(t *testing.T, r *Rng, em *Emitter, roundEm func(JRound, JRoundIm
 			}}, &netEvents{w: w, m: m})
 		node.Run.mu.Lock()
 		node.Run.fn = func(_ context.Context, ps []ocr2keepers.UpkeepPayload) ([]ocr2keepers.CheckResult, error) {
+			if m.deviant {
+				// slow and wrong: everything is eligible, with data no honest pipeline computes
+				time.Sleep(150 * time.Millisecond)
+				out := make([]ocr2keepers.CheckResult, 0, len(ps))
+				for _, p := range ps {
+					out = append(out, ocr2keepers.CheckResult{Eligible: true, UpkeepID: p.UpkeepID, Trigger: p.Trigger, WorkID: p.WorkID,
+						GasAllocated: 4242, PerformData: []byte{0xde, 0xad}, FastGasWei: big.NewInt(3), LinkNative: big.NewInt(3)})
+				}
+				return out, nil
+			}
+			if pipeDelay > 0 {
+				time.Sleep(pipeDelay)
+			}
 			w.mu.Lock()
 			defer w.mu.Unlock()
 			out := make([]ocr2keepers.CheckResult, 0, len(ps))
 			for _, p := range ps {
+				if p.Trigger.LogTriggerExtension == nil {
+					m.condCalls++
+				}
 				res, _ := w.checkResult(p)
 				out = append(out, res)
 				if res.Eligible {
@@ -393,7 +422,7 @@ func runNetwork(t *testing.T, r *Rng, em *Emitter, roundEm func(JRound, JRoundIm
 		m.accepted = map[int]bool{}
 	}
 	for _, m := range members {
-		if !m.byzantine {
+		if !m.byzantine || m.deviant {
 			startMember(m)
 		}
 	}
@@ -425,7 +454,7 @@ func runNetwork(t *testing.T, r *Rng, em *Emitter, roundEm func(JRound, JRoundIm
 		}
 		w.mu.Unlock()
 		for _, m := range members {
-			if m.byzantine || m.node == nil {
+			if m.node == nil {
 				continue
 			}
 			mtop := top - m.lag
@@ -555,8 +584,15 @@ func runNetwork(t *testing.T, r *Rng, em *Emitter, roundEm func(JRound, JRoundIm
 			}
 			var b []byte
 			kind := r.Intn(7)
+			if m.deviant {
+				kind = 7
+			}
 			em.Hit(fmt.Sprintf("net-byz-%d", kind))
 			switch {
+			case kind == 7: // the real plugin over a deviating pipeline
+				if ob, err := m.node.Plugin.Observation(context.Background(), ocr3types.OutcomeContext{SeqNr: seq, PreviousOutcome: prevBytes}, nil); err == nil {
+					b = ob
+				}
 			case kind == 0 && len(honestObs) > 0: // replay an honest observation
 				b = honestObs[r.Intn(len(honestObs))]
 			case kind == 1 && len(honestObs) > 0: // mutate every performable of an honest observation in one field
@@ -799,9 +835,16 @@ func runNetwork(t *testing.T, r *Rng, em *Emitter, roundEm func(JRound, JRoundIm
 	for _, m := range members {
 		if m.node != nil {
 			w.mu.Lock()
-			m.mark(time.Since(w.start))
-			if g := int(m.maxGap / time.Millisecond); g > impl.MaxPollGapMs {
-				impl.MaxPollGapMs = g
+			if !m.deviant {
+				m.mark(time.Since(w.start))
+				if g := int(m.maxGap / time.Millisecond); g > impl.MaxPollGapMs {
+					impl.MaxPollGapMs = g
+				}
+				// the sampling flow ticks every 3 s and the run lasted more than 13 s: a member that was up all the time and has
+				// conditional upkeeps has sent at least one of them to its pipeline
+				if opts.conds > 0 && m.restarts == 0 && m.condCalls == 0 {
+					impl.SamplingStarved++
+				}
 			}
 			w.mu.Unlock()
 			m.node.Close()
